@@ -54,7 +54,7 @@ void harness(void)
             else {
                 VF_ASSERT(s == EEAV_INVALID_RFC, "C15: failure is EEAV_INVALID_RFC");
                 exp_err = EEAV_INVALID_RFC;
-                VF_ASSERT(eav_errstr(&e) == cb_msg_of(EEAV_INVALID_RFC), "C15: after a failed eav_setup eav_errstr reports the invalid-RFC condition, whatever happened before");
+                VF_ASSERT(CB_SAME_MSG(eav_errstr(&e), cb_msg_of(EEAV_INVALID_RFC)), "C15: after a failed eav_setup eav_errstr reports the invalid-RFC condition, whatever happened before");
                 VF_COVER(confirmed >= 0, "failed-setup-after-success");
                 VF_COVER(emails >= 1, "failed-setup-after-validation");
             }
@@ -106,7 +106,7 @@ void harness(void)
             if (exp_err == EEAV_IDN_ERROR)
                 VF_ASSERT(CB_IS_IDN_MESSAGE(m), "C13: eav_errstr still describes the most recent validation (IDN message)");
             else
-                VF_ASSERT(m == cb_msg_of(exp_err), "C13: eav_errstr describes the most recent validation / failed setup");
+                VF_ASSERT(CB_SAME_MSG(m, cb_msg_of(exp_err)), "C13: eav_errstr describes the most recent validation / failed setup");
         } break;
         case OP_REINIT:
             eav_free(&e);
